@@ -62,7 +62,8 @@ def run_overlay_test(repo, pkg_dir, test_src, run_name, timeout=120):
         cmd = ["go", "test", "-overlay", ov, "-vet=off", "-count=1", "-timeout", "60s", "-run", "^" + run_name + "$", "./" + pkg_dir]
         try:
             p = subprocess.run(cmd, cwd=repo, env=GOENV, capture_output=True, text=True, timeout=timeout)
-            return p.returncode, (p.stdout + p.stderr)[-6000:]
+            o = p.stdout + p.stderr
+            return p.returncode, (o if len(o) <= 12000 else o[:6000] + "\n...[cut]...\n" + o[-6000:])
         except subprocess.TimeoutExpired:
             return -1, "replay timed out"
 
@@ -119,12 +120,438 @@ def any_to_go(v, model, extras):
     return None
 
 
+# ---- a small evaluator for solver models (function interpretations) -------------------------
+
+def _tokenize(text):
+    return re.findall(r"\|[^|]*\||\(|\)|\"(?:[^\"]|\"\")*\"|[^\s()]+", text)
+
+
+def _parse_sexprs(text):
+    toks = _tokenize(text)
+    pos = 0
+    out = []
+
+    def rd():
+        nonlocal pos
+        t = toks[pos]
+        pos += 1
+        if t == "(":
+            lst = []
+            while toks[pos] != ")":
+                lst.append(rd())
+            pos += 1
+            return lst
+        return t
+
+    while pos < len(toks):
+        if toks[pos] == ")":
+            pos += 1
+            continue
+        out.append(rd())
+    return out
+
+
+class Model:
+    """function interpretations of a z3 / cvc5 model; values stay s-expressions (atoms or lists)"""
+
+    def __init__(self, text):
+        self.funs = {}
+        try:
+            tops = _parse_sexprs(text)
+        except Exception:  # noqa: BLE001
+            tops = []
+        items = []
+        for t in tops:
+            if isinstance(t, list) and t and t[0] == "define-fun":
+                items.append(t)
+            elif isinstance(t, list):
+                items.extend(x for x in t if isinstance(x, list) and x and x[0] == "define-fun")
+        for d in items:
+            if len(d) == 5:
+                self.funs[d[1].strip("|")] = ([p[0] for p in d[2]], d[4])
+
+    def const(self, name):
+        f = self.funs.get(name)
+        if f and not f[0]:
+            return self.ev(f[1], {})
+        return None
+
+    def apply(self, name, args):
+        f = self.funs.get(name)
+        if f is None:
+            raise KeyError(name)
+        return self.ev(f[1], dict(zip(f[0], args)))
+
+    def num(self, v):
+        if isinstance(v, list):
+            if len(v) == 2 and v[0] == "-":
+                return -self.num(v[1])
+            if len(v) == 3 and v[0] == "_" and str(v[1]).startswith("bv"):
+                n, bits = int(v[1][2:]), int(v[2])
+                return n - (1 << bits) if n >= 1 << (bits - 1) else n
+            raise ValueError(v)
+        iv = smt_int(v)
+        if iv is None:
+            raise ValueError(v)
+        return iv
+
+    def ev(self, e, env, depth=0):
+        if depth > 400:
+            raise RecursionError
+        if not isinstance(e, list):
+            if e in env:
+                return env[e]
+            if e in self.funs and not self.funs[e][0] and e not in ("true", "false"):
+                return self.ev(self.funs[e][1], {}, depth + 1)
+            return e
+        if not e:
+            return e
+        h = e[0]
+        ev = lambda x: self.ev(x, env, depth + 1)  # noqa: E731
+        if h == "ite":
+            return ev(e[2]) if ev(e[1]) == "true" else ev(e[3])
+        if h == "=":
+            vs = [ev(x) for x in e[1:]]
+            return "true" if all(self.same(vs[0], v) for v in vs[1:]) else "false"
+        if h == "distinct":
+            vs = [ev(x) for x in e[1:]]
+            return "true" if all(not self.same(a, b) for i, a in enumerate(vs) for b in vs[i + 1:]) else "false"
+        if h == "and":
+            return "true" if all(ev(x) == "true" for x in e[1:]) else "false"
+        if h == "or":
+            return "true" if any(ev(x) == "true" for x in e[1:]) else "false"
+        if h == "not":
+            return "false" if ev(e[1]) == "true" else "true"
+        if h == "=>":
+            return "true" if ev(e[1]) != "true" or ev(e[2]) == "true" else "false"
+        if h == "let":
+            env2 = dict(env)
+            for b in e[1]:
+                env2[b[0]] = self.ev(b[1], env, depth + 1)
+            return self.ev(e[2], env2, depth + 1)
+        if h in ("+", "-", "*", "<=", "<", ">=", ">", "div", "mod"):
+            ns = [self.num(ev(x)) for x in e[1:]]
+            if h == "+":
+                return str(sum(ns))
+            if h == "-":
+                return str(-ns[0] if len(ns) == 1 else ns[0] - sum(ns[1:]))
+            if h == "*":
+                r = 1
+                for n in ns:
+                    r *= n
+                return str(r)
+            if h == "div":
+                return str(ns[0] // ns[1]) if ns[1] else "0"
+            if h == "mod":
+                return str(ns[0] % abs(ns[1])) if ns[1] else "0"
+            ok = {"<=": ns[0] <= ns[1], "<": ns[0] < ns[1], ">=": ns[0] >= ns[1], ">": ns[0] > ns[1]}[h]
+            return "true" if ok else "false"
+        if h == "select":
+            return self.sel(ev(e[1]), ev(e[2]), depth)
+        if h in ("store", "lambda", "_", "as"):
+            if h == "store":
+                return ["store", ev(e[1]), ev(e[2]), ev(e[3])]
+            return e
+        if isinstance(h, str) and h in self.funs and self.funs[h][0]:
+            return self.apply(h, [ev(x) for x in e[1:]])
+        if isinstance(h, list) and h and h[0] == "as" and h[1] == "const":
+            return ["constarr", ev(e[1])]
+        return [h] + [ev(x) for x in e[1:]]
+
+    def same(self, a, b):
+        try:
+            return self.num(a) == self.num(b)
+        except Exception:  # noqa: BLE001
+            return a == b
+
+    def sel(self, arr, idx, depth=0):
+        for _ in range(100000):
+            if isinstance(arr, list) and arr and arr[0] == "store":
+                if self.same(arr[2], idx):
+                    return arr[3]
+                arr = arr[1]
+                continue
+            if isinstance(arr, list) and arr and arr[0] == "constarr":
+                return arr[1]
+            if isinstance(arr, list) and len(arr) == 3 and arr[0] == "_" and arr[1] == "as-array":
+                return self.apply(arr[2], [idx])
+            if isinstance(arr, list) and arr and arr[0] == "lambda":
+                return self.ev(arr[2], {arr[1][0][0]: idx}, depth + 1)
+            break
+        raise ValueError("select from " + str(arr)[:80])
+
+    def go_string(self, atom, limit=200000):
+        """the Go literal of a Str element: its length and bytes as the model interprets slen / sbyte"""
+        n = self.num(self.apply("slen", [atom]))
+        if n < 0 or n > limit:
+            return None
+        bs = []
+        for i in range(n):
+            b = self.num(self.apply("sbyte", [atom, str(i)]))
+            bs.append(b & 0xFF)
+        return "string([]byte{" + ", ".join(str(b) for b in bs) + "})" if bs else '""'
+
+
+def _sx(v):
+    return v if not isinstance(v, list) else "(" + " ".join(_sx(x) for x in v) + ")"
+
+
+def model_value_to_go(kind, gotype, name, M, extras, bits=64, unsigned=False):
+    """Go text for the model's value of parameter `name`; None when it cannot be rendered"""
+    v = M.const("p_" + name)
+    if v is None:
+        # the solver left it unconstrained: any value will do
+        return {"int": "0", "bool": "false", "string": '""', "float": "0.0", "any": "nil"}[kind] if kind != "int" or True else None
+    try:
+        if kind == "int":
+            n = M.num(v) & ((1 << bits) - 1)
+            if not unsigned and n >= 1 << (bits - 1):
+                n -= 1 << bits
+            return str(n)
+        if kind == "bool":
+            return "true" if v == "true" else "false"
+        if kind == "float":
+            return fp_to_go(_sx(v))
+        if kind == "string":
+            lit = str_to_go(_sx(v), {k: _sx(M.const(k)) for k in (extras.get("str_consts") or {}) if M.const(k) is not None}, extras)
+            return lit if lit is not None else M.go_string(v)
+        if kind == "any":
+            if v == "anil":
+                return "nil"
+            if isinstance(v, list) and v and v[0] in ("aint", "aflt", "abool", "astr"):
+                tids = extras.get("type_ids") or []
+                tid = M.num(v[1])
+                tname = tids[tid - 1] if 0 < tid <= len(tids) else None
+                if v[0] == "aint":
+                    if tname is None:
+                        return None
+                    return "%s(%d)" % (tname.split("/")[-1], M.num(v[2]))
+                if v[0] == "aflt":
+                    f = fp_to_go(_sx(v[2]))
+                    return None if f is None else "float64(%s)" % f
+                if v[0] == "abool":
+                    return "true" if v[2] == "true" else "false"
+                if v[0] == "astr":
+                    lit = str_to_go(_sx(v[2]), {k: _sx(M.const(k)) for k in (extras.get("str_consts") or {}) if M.const(k) is not None}, extras)
+                    return lit if lit is not None else M.go_string(v[2])
+            return None
+    except Exception:  # noqa: BLE001
+        return None
+    return None
+
+
+AUTO_TEST = "TestVerifAutoReplay"
+
+
+def _split_helpers(text):
+    out = {}
+    for m in re.finditer(r"func (verifSpec_\w+)\(.*?\n}\n", text or "", re.S):
+        out[m.group(1)] = m.group(0)
+    return out
+
+
+def build_auto_test(ri, safety, clauses, cases):
+    """the in-package test that calls the real function on each candidate input (the model's
+    values first), requires that it does not panic and evaluates the given clauses (dicts with
+    clause / go_clause / go_helpers / go_imports) on what it returned"""
+    sig = ", ".join(f"{p['name']} {p['gotype'] or 'any'}" for p in ri["params"])
+    body = []
+    for p in ri["params"]:
+        body.append(f"\t_ = {p['name']}")
+    res = ri.get("results") or []
+    for i, t in enumerate(res):
+        body.append(f"\tvar verifR{i} {t}")
+        body.append(f"\t_ = verifR{i}")
+    lhs = ", ".join(f"verifR{i}" for i in range(len(res)))
+    call = f"{ri['call']}({', '.join(p['name'] for p in ri['params'])})"
+    if lhs:
+        call = lhs + " = " + call
+    body.append("\tpanicked := func() (p any) {\n\t\tdefer func() { p = recover() }()\n\t\t" + call + "\n\t\treturn nil\n\t}()")
+    argdump = ", ".join(f"{p['name']}=%s" for p in ri["params"])
+    argvals = ", ".join(f"verifShow({p['name']})" for p in ri["params"])
+    tag = "REPLAY-VIOLATION" if safety else "REPLAY-PANIC"
+    body.append(f'\tif panicked != nil {{\n\t\tt.Errorf("{tag} [%s] {ri["call"]}({argdump}) panicked: %v", verifCaseName, {argvals}, panicked)\n\t\treturn {"true" if safety else "false"}\n\t}}')
+    resdump = ", ".join(f"result{i}=%s" for i in range(len(res)))
+    resvals = ", ".join(f"verifShow(verifR{i})" for i in range(len(res)))
+    fmtargs = ", ".join(x for x in (argvals, resvals) if x)
+    helpers = {}
+    extra_imports = []
+    for n, c in enumerate(clauses):
+        helpers.update(_split_helpers(c.get("go_helpers")))
+        extra_imports += c.get("go_imports") or []
+        body.append("\t{\n\t\tvar evalPanic any\n\t\tholds := func() (ok bool) {\n\t\t\tdefer func() {\n\t\t\t\tif p := recover(); p != nil {\n\t\t\t\t\tevalPanic, ok = p, true\n\t\t\t\t}\n\t\t\t}()\n\t\t\treturn " + c["go_clause"] + "\n\t\t}()")
+        body.append('\t\tif evalPanic != nil {\n\t\t\tt.Logf("REPLAY-UNDECIDED [%s] evaluating clause %d panicked: %v", verifCaseName, ' + str(n) + ', evalPanic)\n\t\t}')
+        body.append(f'\t\tif !holds {{\n\t\t\tt.Errorf("REPLAY-VIOLATION [%s] clause false: %s\\n  for {ri["call"]}({argdump}): {resdump}", verifCaseName, {json.dumps(c["clause"])}, {fmtargs})\n\t\t\treturn true\n\t\t}}\n\t}}')
+    body.append("\treturn false")
+    helper_text = "\n".join(helpers[k] for k in sorted(helpers))
+    calls = []
+    for label, args in cases:
+        vals = []
+        for p in ri["params"]:
+            gt = p["gotype"] or "any"
+            vals.append(args[p["name"]] if p["kind"] == "any" else f"{gt}({args[p['name']]})")
+        calls.append(f"\tif verifCase(t, {json.dumps(label)}, {', '.join(vals)}) {{\n\t\treturn\n\t}}")
+    text_for_imports = "\n".join(body) + helper_text + sig + "\n".join(calls)
+    imports = {"testing": "testing", "math": "math", "fmt": "fmt"}
+    for n, path in list(ri.get("imports") or []) + extra_imports:
+        if re.search(r"\b" + re.escape(n) + r"\.", text_for_imports):
+            imports[n] = path
+    src = [f"package {ri['pkg_name']}", "", "import ("]
+    for n, path in sorted(imports.items()):
+        src.append(f'\t{n} "{path}"')
+    src += [")", "", "var _ = math.NaN", "",
+            "func verifShow(v any) string {\n\ts := fmt.Sprintf(\"%#v\", v)\n\tif len(s) > 300 {\n\t\ts = s[:150] + \"...\" + s[len(s)-150:]\n\t}\n\treturn s\n}", "",
+            "func verifSame(a, b any) bool {\n\tfa, ok1 := a.(float64)\n\tfb, ok2 := b.(float64)\n\tif ok1 && ok2 {\n\t\treturn (fa != fa && fb != fb) || math.Float64bits(fa) == math.Float64bits(fb)\n\t}\n\treturn a == b\n}", "",
+            helper_text, "",
+            f"func verifCase(t *testing.T, verifCaseName string, {sig}) bool {{"] + body + ["}", "",
+            f"func {AUTO_TEST}(t *testing.T) {{"] + calls + ["}", ""]
+    return "\n".join(src)
+
+
+FILLERS = [("'8'", 56), ("'f'", 102), ("'F'", 70), ("'0'", 48), ("'a'", 97), ("' '", 32), ("newline", 10), ("'\"'", 34), ("0xff", 255), ("0x80", 128), ("'\\\\'", 92), ("'9'", 57)]
+
+
+def string_variants(M, ri, extras, base_args):
+    """inputs near the model: the bytes of string parameters that the model left at its default
+    value (they did not matter to the solver, usually because a loop was cut at its invariant)
+    replaced by a filler.  Only tried when the model's own input does not reproduce."""
+    out = []
+    free = {}
+    for p in ri["params"]:
+        if p["kind"] != "string":
+            continue
+        v = M.const("p_" + p["name"])
+        if v is None:
+            continue
+        try:
+            n = M.num(M.apply("slen", [v]))
+            if n <= 0 or n > 4096:
+                continue
+            default = M.num(M.apply("sbyte", [v, str(n + 987654)])) & 0xFF
+            bs = [M.num(M.apply("sbyte", [v, str(i)])) & 0xFF for i in range(n)]
+        except Exception:  # noqa: BLE001
+            continue
+        idx = [i for i, b in enumerate(bs) if b == default]
+        last = max([i for i, b in enumerate(bs) if b != default], default=-1)
+        tail = [i for i in idx if i > last]
+        if idx:
+            free[p["name"]] = (bs, tail, idx)
+    if not free:
+        return out
+    for which, what in ((1, "trailing unconstrained"), (2, "unconstrained")):
+        for label, fb in FILLERS:
+            args = dict(base_args)
+            changed = False
+            for name, fr in free.items():
+                bs, idx = fr[0], fr[which]
+                if which == 2 and idx == fr[1]:
+                    continue
+                nb = list(bs)
+                for i in idx:
+                    nb[i] = fb
+                    changed = True
+                args[name] = "string([]byte{" + ", ".join(str(b) for b in nb) + "})"
+            if changed:
+                out.append((f"model with its {what} string bytes set to {label}", args))
+    return out
+
+
+def small_model(smt_file, ri, intmode, bound):
+    """the same query with the string parameters bounded in length; the model text, or None"""
+    try:
+        text = open(smt_file).read()
+    except OSError:
+        return None
+    cons = []
+    for p in ri["params"]:
+        if p["kind"] == "string":
+            if intmode == "bv64":
+                cons.append(f"(assert (bvule (slen p_{p['name']}) (_ bv{bound} 64)))")
+            else:
+                cons.append(f"(assert (<= (slen p_{p['name']}) {bound}))")
+    if not cons:
+        return None
+    i = text.rfind("(check-sat)")
+    if i < 0:
+        return None
+    with tempfile.NamedTemporaryFile("w", suffix=".smt2", delete=False) as f:
+        f.write(text[:i] + "\n".join(cons) + "\n" + text[i:])
+        path = f.name
+    try:
+        for solver in (["z3-new", "-smt2", "-T:20", path], ["/usr/bin/z3", "-smt2", "-T:20", path]):
+            try:
+                out = subprocess.run(solver, capture_output=True, text=True, timeout=30).stdout
+            except (subprocess.TimeoutExpired, OSError):
+                continue
+            if out.startswith("sat"):
+                return out.split("\n", 1)[1] if "\n" in out else ""
+    finally:
+        os.unlink(path)
+    return None
+
+
+def auto_replay(repo, pid, obligation, result, extras, smt_file=None):
+    ri = (extras or {}).get("replay")
+    if not ri:
+        return None
+    if result["result"] != "sat":
+        return {"confirmed": False, "reason": "solver gave no model (" + result["result"] + ")"}
+    safety = obligation["kind"].startswith("safe:")
+    if obligation.get("go_clause"):
+        clauses = [dict(clause=obligation.get("clause", ""), go_clause=obligation["go_clause"], go_helpers=obligation.get("go_helpers"), go_imports=obligation.get("go_imports"))]
+        how = "the violated clause evaluated on the real function's result"
+    else:
+        # a failed invariant / call precondition / untranslatable clause: the model's input is run through
+        # the real function and every translatable postcondition of the property is evaluated on the result
+        clauses = [c for c in ri.get("posts") or [] if pid in (c.get("props") or [])]
+        how = "every translatable postcondition of the function evaluated on the real function's result (the failed obligation itself is not an input/output statement)"
+        if not clauses and not safety:
+            return {"confirmed": False, "reason": "no clause of this function can be evaluated on the real code: " + (obligation.get("go_why_not") or obligation["kind"])}
+    used = {}
+
+    def render(model_text):
+        M = Model(model_text)
+        args = {}
+        for p in ri["params"]:
+            g = model_value_to_go(p["kind"], p["gotype"], p["name"], M, extras, p.get("bits") or 64, bool(p.get("unsigned")))
+            if g is None:
+                return None, p
+            args[p["name"]] = g
+        used["M"] = M
+        return args, None
+
+    args, badp = render(result.get("model", ""))
+    note = ""
+    if args is None and smt_file:
+        # solvers like huge strings: ask again for a model whose string parameters are short
+        for bound in (8, 64, 2048):
+            mt = small_model(smt_file, ri, (extras or {}).get("intmode", "math"), bound)
+            if mt:
+                args, badp = render(mt)
+                if args is not None:
+                    note = f"model re-requested with string parameters of at most {bound} bytes"
+                    break
+    if args is None:
+        return {"confirmed": False, "reason": f"model value of parameter {badp['name']} cannot be rendered as Go {badp['kind']}"}
+    cases = [("the solver's model", args)] + string_variants(used["M"], ri, extras or {}, args)
+    src = build_auto_test(ri, safety, clauses, cases)
+    rc, out = run_overlay_test(repo, ri["pkg_dir"], src, AUTO_TEST)
+    m = re.search(r"REPLAY-VIOLATION \[([^\]]*)\]", out)
+    return {"confirmed": rc != 0 and m is not None, "input": m.group(1) if m else "", "how": how + ("; " + note if note else ""), "args": args, "go_test_exit": rc, "output": out, "test_source": src, "auto": True, "pkg_dir": ri["pkg_dir"]}
+
+
 def try_replay(root, repo, pid, obligation, result, smt_file, extras=None):
     tmpl = load_templates(root)
     fn = obligation["func"]
     entry = tmpl.get(fn)
     if not entry:
-        return {"confirmed": False, "reason": "no replay template for " + fn + "; solver output attached"}
+        try:
+            r = auto_replay(repo, pid, obligation, result, extras, smt_file)
+        except Exception as e:  # noqa: BLE001
+            r = {"confirmed": False, "reason": "replay machinery error: " + repr(e)}
+        if r is not None:
+            return r
+        return {"confirmed": False, "reason": "no replay route for " + fn + " (its parameters are heap structures); solver output attached"}
     if result["result"] != "sat":
         return {"confirmed": False, "reason": "solver gave no model (" + result["result"] + ")"}
     model = parse_model(result.get("model", ""))
@@ -162,6 +589,9 @@ def try_replay(root, repo, pid, obligation, result, smt_file, extras=None):
 
 def rerun(root, repo, rec):
     rep = rec.get("replay") or {}
+    if rep.get("test_source") and rep.get("auto"):
+        rc, out = run_overlay_test(repo, rep["pkg_dir"], rep["test_source"], AUTO_TEST)
+        return {"confirmed": rc != 0 and "REPLAY-VIOLATION" in out, "go_test_exit": rc, "output": out}
     if rep.get("test_source"):
         tmpl = load_templates(root)
         entry = tmpl.get(rec.get("function"))
